@@ -1,7 +1,8 @@
 // ---------------------------------------------------------------------------------
 // shims/serlen_mpi.rs - crate::types::Mpi as an *assumed* component contract for the units of the
 // length-agreement sweep that come after U75a (where the two Serialize methods are proved on the real code
-// WITHOUT the canonicity invariant).  Include after shims/io.rs, shims/bytes.rs, shims/secret_reader.rs.
+// WITHOUT the canonicity invariant).  Include after shims/io_sink.rs, shims/bytes.rs,
+// shims/serlen_sink.rs (or shims/io.rs, shims/secret_reader.rs: U75a proves the stronger contract, with same_dest) and shims/serlen_ext.rs.
 // ---------------------------------------------------------------------------------
 use vstd::std_specs::bits::u8_leading_zeros;
 
@@ -27,7 +28,7 @@ pub proof fn lemma_strip_len(s: Seq<u8>)
     if s.len() == 0 || s[0] != 0 { } else { lemma_strip_len(s.skip(1)); }
 }
 
-//@trusted T4 types::Mpi with its magnitude mv(): to_writer appends mpi_wire(mv()) = be16(bit length) ++ magnitude, write_len() == 2 + |mv()| == |mpi_wire(mv())|, for EVERY value (proved in U75a; U15 proves the same under the canonicity invariant); from_slice(raw) holds strip(raw) (proved in U15); from_raw(b) wraps b unchanged (src/types/mpi.rs:29, a one-line constructor)
+//@trusted T4 types::Mpi with its magnitude mv(): to_writer appends mpi_wire(mv()) = be16(bit length) ++ magnitude, write_len() == 2 + |mv()| == |mpi_wire(mv())|, for EVERY value (proved in U75a; U15 proves the same under the canonicity invariant); from_slice(raw) holds strip(raw) (proved in U15); from_raw(b) wraps b unchanged, Mpi::from(BigUint / &BigUint) holds to_bytes_be() (proved in U75a)
 #[verifier::external_body]
 pub struct Mpi { v: u8 }
 impl Mpi {
@@ -51,7 +52,7 @@ impl Serialize for Mpi {
 pub proof fn axiom_mpi_len(m: &Mpi)
     ensures m.mv().len() < 0x0100_0000_0000_0000
 {}
-//@trusted T2 `Mpi::from(&BigUint)` (src/types/mpi.rs:122) holds the big-endian octets to_bytes_be() of the number (include shims/serlen_ext.rs first)
+// (include shims/serlen_ext.rs first: BigUint)
 impl<'a> core::convert::From<&'a BigUint> for Mpi {
     #[verifier::external_body]
     fn from(b: &'a BigUint) -> (r: Mpi) ensures r.mv() == b.be_bytes() { unimplemented!() }
